@@ -1,98 +1,169 @@
+//! Sim-B: the deployed pipeline (compiler -> renderer -> engine) under a simulator-owned random
+//! source (DESIGN 2.2). Decides C01, C02, C03, C04, C09.
+mod c09;
 mod engine;
+mod gen;
 mod ir;
+mod minimise;
+mod oracle;
+mod owners;
 mod pipeline;
+mod query;
 mod scenario;
 mod translator;
 
-use engine::{DrawPlan, Engine};
-use scenario::*;
+use oracle::{Exec, RunRecord, Stats, Verdict};
+use scenario::Scenario;
+use std::io::Write;
 
-fn smoke() {
-    let users = TableSpec {
-        name: "users".into(),
-        cols: vec![
-            ColSpec { name: "id".into(), ty: ColType::IntRange { lo: 0, hi: 1000 }, optional: false, unique: true },
-            ColSpec { name: "age".into(), ty: ColType::IntRange { lo: 0, hi: 100 }, optional: false, unique: false },
-            ColSpec { name: "city".into(), ty: ColType::TextValues(vec!["NY".into(), "LA".into()]), optional: false, unique: false },
-        ],
-        size: 100,
-        rows: (0..20)
-            .map(|i| vec![Cell::Int(i), Cell::Int(20 + i), Cell::Text(if i % 2 == 0 { "NY".into() } else { "LA".into() })])
-            .collect(),
-    };
-    let orders = TableSpec {
-        name: "orders".into(),
-        cols: vec![
-            ColSpec { name: "id".into(), ty: ColType::IntRange { lo: 0, hi: 10000 }, optional: false, unique: true },
-            ColSpec { name: "user_id".into(), ty: ColType::IntRange { lo: 0, hi: 1000 }, optional: false, unique: false },
-            ColSpec { name: "amount".into(), ty: ColType::FloatRange { lo: 0.0, hi: 50.0 }, optional: true, unique: false },
-            ColSpec { name: "qty".into(), ty: ColType::IntRange { lo: 0, hi: 30 }, optional: false, unique: false },
-        ],
-        size: 200,
-        rows: (0..60)
-            .map(|i| vec![Cell::Int(i), Cell::Int(i % 20), if i % 7 == 0 { Cell::Null } else { Cell::Float(i as f64 * 0.5) }, Cell::Int(i % 5)])
-            .collect(),
-    };
-    let sc = Scenario {
-        seed: 0,
-        run: 0,
-        tables: vec![users, orders],
-        synthetic: vec![],
-        pu: PuSpec {
-            entries: vec![
-                PuEntry { table: "users".into(), path: vec![], field: "id".into(), weight: None },
-                PuEntry { table: "orders".into(), path: vec![("user_id".into(), "users".into(), "id".into())], field: "id".into(), weight: None },
-            ],
-            hash: false,
-        },
-        params: Params { epsilon: 1.0, delta: 1e-4, tau_share: 0.5, max_mult: 100.0, max_mult_share: 0.1, cu: 3 },
-        sql: std::env::args().nth(2).unwrap_or("SELECT qty, count(*) AS c, sum(amount) AS s, avg(amount) AS a FROM orders GROUP BY qty".into()),
-        compile: CompileState { reset_first: true, burn: vec![], hash_seed: 1 },
-        engine_seed: 7,
-        tags: vec![],
-    };
-    let c = match pipeline::compile(&sc) {
-        Ok(c) => c,
-        Err(e) => {
-            println!("compile error: {:?}", e);
-            return;
-        }
-    };
-    println!("event: {}", c.event);
-    let sql = pipeline::render(&c.dp);
-    println!("{}", sql);
-    let scan = ir::scan(&c.dp);
-    println!("nodes {} tables {:?}", scan.nodes, scan.tables);
-    for nm in &scan.noise_maps {
-        println!("noise map {} cols {:?}", qrlew::relation::Variant::name(&nm.map), nm.cols);
+fn check_one(prop: &str, sc: &Scenario, ex: &mut Exec) -> (Verdict, Option<String>) {
+    match prop {
+        "C09" => c09::check(sc, ex),
+        other => (Verdict::Skip(format!("unknown property {}", other)), None),
     }
-    for t in &scan.thresholds {
-        println!("threshold col {} tau {} strict {}", t.column, t.tau, t.strict);
-    }
-    println!("other random: {:?} unrecognised: {:?}", scan.other_random, scan.unrecognised);
-    let tabs: Vec<&TableSpec> = sc.tables.iter().collect();
-    let mut eng = Engine::new(&tabs).unwrap();
-    for plan in [DrawPlan::neutral(1), DrawPlan::neutral(1).release_all(), DrawPlan::seeded(1)] {
-        match eng.query(&sql, &plan) {
-            Ok((rs, log)) => {
-                println!("{:?}", rs.columns);
-                for r in &rs.rows {
-                    println!("  {:?}", r);
-                }
-                for (k, v) in &log {
-                    println!("  draw {:?} calls {} first {:?}", k, v.calls, v.first);
-                }
+}
+
+/// One run = one (seed, run index): executed in a fresh thread so that the hash keys of every
+/// map it creates are a function of the scenario's hash seed alone (getrandom shim).
+fn run_scenario(prop: &str, sc: Scenario, keep_scenario: bool) -> RunRecord {
+    std::env::set_var("VERIF_HASH_SEED", sc.compile.hash_seed.to_string());
+    let prop_s = prop.to_string();
+    let handle = std::thread::Builder::new()
+        .stack_size(256 << 20)
+        .spawn(move || {
+            let mut stats = Stats::default();
+            let mut log: Vec<String> = vec![format!("run seed={} run={} prop={}", sc.seed, sc.run, prop_s)];
+            log.push(format!("sql {}", sc.sql));
+            for t in sc.tags.iter().filter(|t| t.starts_with("fault:")) {
+                stats.fault(&t[6..]);
             }
-            Err(e) => println!("engine error: {}", e),
-        }
-    }
-    let (rs, _) = eng.query(&sc.sql, &DrawPlan::neutral(1)).unwrap();
-    println!("original: {:?}", rs.rows);
+            let (verdict, shape) = {
+                let mut ex = Exec { stats: &mut stats, log: &mut log };
+                check_one(&prop_s, &sc, &mut ex)
+            };
+            log.push(format!("verdict {}", match &verdict { Verdict::Ok => "ok".to_string(), Verdict::Skip(r) => format!("skip:{}", r), Verdict::Violations(v) => format!("violations:{}", v.iter().map(|x| x.invariant.clone()).collect::<Vec<_>>().join(",")) }));
+            let keep = keep_scenario || matches!(verdict, Verdict::Violations(_));
+            let verdict_is_ok = matches!(verdict, Verdict::Ok);
+            RunRecord {
+                seed: sc.seed,
+                run: sc.run,
+                property: prop_s,
+                verdict,
+                shape,
+                tags: sc.tags.clone(),
+                stats,
+                digest: oracle::digest(&log),
+                notes: if matches!(verdict_is_ok, true) { vec![] } else { log.clone() },
+                scenario: if keep { Some(sc) } else { None },
+            }
+        })
+        .unwrap();
+    handle.join().expect("run thread panicked (harness error)")
+}
+
+fn arg<'a>(args: &'a [String], name: &str) -> Option<&'a str> {
+    args.iter().position(|a| a == name).and_then(|i| args.get(i + 1)).map(|s| s.as_str())
 }
 
 fn main() {
-    let a: Vec<String> = std::env::args().collect();
-    if a.get(1).map(|s| s.as_str()) == Some("smoke") {
-        smoke();
+    let args: Vec<String> = std::env::args().collect();
+    // qrlew logs through `log`; keep panics of catch_unwind'ed compiles quiet
+    std::panic::set_hook(Box::new(|_| {}));
+    match args.get(1).map(|s| s.as_str()) {
+        Some("run") => {
+            let prop = arg(&args, "--prop").expect("--prop");
+            let seed: u64 = arg(&args, "--seed").unwrap_or("1").parse().unwrap();
+            let from: u64 = arg(&args, "--from").unwrap_or("0").parse().unwrap();
+            let to: u64 = arg(&args, "--to").unwrap_or("10").parse().unwrap();
+            let stride: u64 = arg(&args, "--stride").unwrap_or("1").parse().unwrap();
+            let offset: u64 = arg(&args, "--offset").unwrap_or("0").parse().unwrap();
+            let samples: u64 = arg(&args, "--samples").unwrap_or("2").parse().unwrap();
+            let deadline: Option<f64> = arg(&args, "--deadline-s").map(|s| s.parse().unwrap());
+            let out_path = arg(&args, "--out").expect("--out");
+            let mut out = std::io::BufWriter::new(std::fs::File::create(out_path).unwrap());
+            let start = std::time::Instant::now();
+            let mut kept = 0u64;
+            let mut i = from + offset;
+            while i < to {
+                // wall-clock is read only to stop starting new runs; a run is never cut
+                if let Some(d) = deadline {
+                    if start.elapsed().as_secs_f64() > d {
+                        break;
+                    }
+                }
+                let g = gen::generate(seed, i, prop);
+                let rec = run_scenario(prop, g.scenario, false);
+                let mut rec = rec;
+                if rec.scenario.is_none() && kept < samples && matches!(rec.verdict, Verdict::Ok) {
+                    // keep a few full scenarios as evidence samples
+                    rec.scenario = Some(gen::generate(seed, i, prop).scenario);
+                    kept += 1;
+                }
+                serde_json::to_writer(&mut out, &rec).unwrap();
+                out.write_all(b"\n").unwrap();
+                i += stride;
+            }
+            out.flush().unwrap();
+        }
+        Some("replay") => {
+            let file = arg(&args, "--file").expect("--file");
+            let text = std::fs::read_to_string(file).expect("read replay file");
+            let v: serde_json::Value = serde_json::from_str(&text).expect("json");
+            let prop = v["property"].as_str().expect("property").to_string();
+            let sc: Scenario = serde_json::from_value(v["scenario"].clone()).expect("scenario");
+            let rec = run_scenario(&prop, sc, true);
+            println!("{}", serde_json::to_string(&rec).unwrap());
+            if let Verdict::Violations(_) = rec.verdict {
+                std::process::exit(1);
+            }
+        }
+        Some("minimise") => {
+            let file = arg(&args, "--file").expect("--file");
+            let out = arg(&args, "--out").expect("--out");
+            let text = std::fs::read_to_string(file).expect("read replay file");
+            let v: serde_json::Value = serde_json::from_str(&text).expect("json");
+            let prop = v["property"].as_str().expect("property").to_string();
+            let invariant = v["invariant"].as_str().expect("invariant").to_string();
+            let class = v["class"].as_str().expect("class").to_string();
+            let sc: Scenario = serde_json::from_value(v["scenario"].clone()).expect("scenario");
+            let (small, tried) = minimise::minimise(check_one, &prop, &sc, &invariant, &class);
+            let rec = run_scenario(&prop, small, true);
+            let mut o = serde_json::to_value(&rec).unwrap();
+            o["invariant"] = serde_json::json!(invariant);
+            o["class"] = serde_json::json!(class);
+            o["minimise_candidates"] = serde_json::json!(tried);
+            std::fs::write(out, serde_json::to_string_pretty(&o).unwrap()).unwrap();
+        }
+        Some("ir") => {
+            let file = arg(&args, "--file").expect("--file");
+            let v: serde_json::Value = serde_json::from_str(&std::fs::read_to_string(file).unwrap()).unwrap();
+            let sc: Scenario = serde_json::from_value(v["scenario"].clone()).expect("scenario");
+            debug_ir(&sc);
+        }
+        Some("gen") => {
+            let prop = arg(&args, "--prop").expect("--prop");
+            let seed: u64 = arg(&args, "--seed").unwrap_or("1").parse().unwrap();
+            let run: u64 = arg(&args, "--run").unwrap_or("0").parse().unwrap();
+            let g = gen::generate(seed, run, prop);
+            println!("{}", serde_json::to_string_pretty(&g.scenario).unwrap());
+        }
+        _ => {
+            eprintln!("usage: sim-b run|replay|gen ...");
+            std::process::exit(2);
+        }
+    }
+}
+
+#[allow(dead_code)]
+pub fn debug_ir(sc: &Scenario) {
+    match pipeline::compile(sc) {
+        Ok(c) => {
+            for n in ir::nodes(&c.dp) {
+                println!("{}", n);
+            }
+            println!("{}", c.event);
+            println!("{}", pipeline::render(&c.dp));
+        }
+        Err(e) => println!("{:?}", e),
     }
 }
